@@ -1219,7 +1219,13 @@ class C16(CheckBase):
                 "a template in with load:; in 30% of histories another "
                 "process replaces an object's file just before the n-th "
                 "file-system call (stat, open, read, close) of a use of "
-                "that object. Clock steps per write in {0, "
+                "that object; in 30% an asynchronous exception "
+                "(KeyboardInterrupt / SystemExit / MemoryError) is delivered "
+                "at the n-th line / distinct line / shared-state access line "
+                "of a use, usually one that has something to reload; 'gc' is "
+                "an operation too (the caller drops every template it got "
+                "from the loader and the collector runs). Clock steps per "
+                "write in {0, "
                 "1ms, 1s, 1h, 400d, -1ms, -5s}. A history is non-trivial if "
                 "at least one reload was required by the mtime rule or a "
                 "loader resolution succeeded; distinct by hash of (ops, "
@@ -1238,7 +1244,9 @@ class C16(CheckBase):
                 "stub": ["the clock: every mtime is stamped with os.utime "
                          "from a simulated clock", "read/stat faults (EIO, "
                          "ENOENT) injected at the os.path.getmtime / open "
-                         "seam", "the deployer (between operations, and inside "
+                         "seam", "asynchronous exceptions raised from the "
+                         "sys.monitoring LINE callback", "when the cyclic "
+                         "garbage collector runs (automatic collection off)", "the deployer (between operations, and inside "
                          "one at a chosen file-system call)"]},
             "assumptions": [
                 "a rewrite that leaves the mtime unchanged is undetectable "
